@@ -56,6 +56,8 @@ def o_prod(f, g):
         return None
     return orc
 
+NEEDS_CLI = True
+
 def cases(rng, tier):
     th = tier == 'thorough'
     out = []
@@ -109,4 +111,20 @@ def cases(rng, tier):
     s = Case('discriminant', line('discriminant', [1, 1]), model=line('discriminant_x', [1, 1], R.MODE['debug']), compare=cmpf, nontrivial=False, tag='flag-count')
     fc.sentinel = s
     out.append(s)
+    # --- CLI glue: `rust-number-theory <config>` with to_find = discriminant (coefficients as written, trailing zeros kept)
+    def cmp_cli(ia, ma):
+        if ia.kind != 'ok' or ma.kind != 'ok':
+            return 'CLI %r vs model %r' % (ia.raw[:200], ma.raw[:200])
+        if ia.val == Id('cli_failed'): return 'the CLI exited with an error, model %r' % ma.raw[:200]
+        if ia.val != ma.val[0]: return 'CLI printed %r, model value %r' % (ia.raw[:200], ma.raw[:200])
+        return None
+    cli = [[37, 2, 1], [37, 2, 1, 0], [1, 0, 1, 0, 0], [-3, 2, 1], [4, 3, 2, 1], [5, 6, -7, 6, -7, 6], [1, -1, 0, 0, 1], [2, 3]]
+    for _ in range(10 if not th else 60):
+        cli.append([rng.randrange(-30, 31) for _ in range(rng.randrange(2, 8))] + [0] * rng.choice([0, 0, 1, 2]))
+    for f in cli:
+        sf = R.strip(list(f))
+        if len(sf) < 2: continue
+        out.append(Case('cli_discriminant', line('cli_discriminant', f), model=line('discriminant_x', f, R.MODE['debug']), compare=cmp_cli,
+                        oracle=(lambda sf=sf: (lambda ia: None if ia.kind == 'ok' and ia.val == R.disc_formula(sf) else 'CLI discriminant of %s printed %s' % (sf, ia.raw[:100])))(),
+                        always_oracle=True, tag='cli'))
     return out
